@@ -245,7 +245,7 @@ def run(ck):
     c09.crc_start_flow(ck, prog("K1"))
     # what a reset clears is what the reference clears
     from .. import condparity as _cp
-    ck.floor("SIB/ref-conditions", _cp.check(ck, prog("K1"), "SIB/ref-conditions", only={"inflate.c:inflateResetKeep", "inflate.c:inflateReset", "deflate.c:deflateReset", "deflate.c:lm_init", "deflate.c:deflateResetKeep"}), 1)
+    ck.floor("SIB/ref-conditions", _cp.check(ck, prog("K1"), "SIB/ref-conditions", only={"deflate_rle.c:deflate_rle", "inflate.c:inflateResetKeep", "inflate.c:inflateReset", "deflate.c:deflateReset", "deflate.c:lm_init", "deflate.c:deflateResetKeep"}), 1)
     # a copy made by deflateCopy must not depend on what the allocator left in its buffers
     from . import c14 as _c14
     _c14.whole_buffer_clones(ck, prog("K1"))
